@@ -248,7 +248,9 @@ def run(c):
                     else:
                         dspec, base = "num:%d" % r.choice([999, 0xffffffff, 1 << 31]), None
                     args[dpos] = "d:" + dspec
-                args[ppos] = ("q:" if p != "-" and len(p) > 1 and r.random() < 0.25 else "p:") + p      # q: the string lies across a page boundary
+                # q: the string lies across a page boundary; w: it lies in a page mapped PROT_WRITE only (the kernel reads it all the same)
+                k2 = r.random()
+                args[ppos] = ("q:" if p != "-" and len(p) > 1 and k2 < 0.22 else "w:" if p != "-" and k2 < 0.34 else "p:") + p
                 checks.append({"dspec": dspec, "base": base, "path": "" if p == "-" else p, "follow_rule": f})
             # flags
             flags = None
@@ -268,8 +270,16 @@ def run(c):
             for f in fol:
                 if not isinstance(f, str):
                     a, bit = f[1], f[2]
-                    if isinstance(cls, str) and r.random() < 0.4:
-                        args[a] = "n:%d" % bit
+                    if isinstance(cls, str):
+                        # the follow bit, and bits that do not change which object a non-empty name designates
+                        # (AT_EMPTY_PATH counts only with an empty name, AT_NO_AUTOMOUNT never)
+                        v = bit if r.random() < 0.4 else 0
+                        if all(ck["path"] for ck in checks) and r.random() < 0.3:
+                            v |= 0x1000
+                        if name in ("statx", "newfstatat", "fstatat", "fstatat64") and r.random() < 0.2:
+                            v |= 0x800
+                        if v:
+                            args[a] = "n:%d" % v
             oid = "%d" % oi
             lines.append("op %s %d %s" % (oid, nr, " ".join(args)))
             for ci, ck in enumerate(checks):
